@@ -116,19 +116,24 @@ def units(tier, seed=0):
                 if key == 'transform':
                     us.append(u)
                     continue
-                for capk, unitsk in VEC_SHAPES[tier]:
-                    uu = dict(u); uu['id'] = u['id'] + '.cap%d' % capk
-                    uu['cdefs'] = u['cdefs'] + ['CAPK=%d' % capk, 'UNITSK=%d' % max(0, unitsk // L.sa)]
+                shapes = [(c, b, c, b) for c, b in VEC_SHAPES[tier]]
+                if extra.get('two'):
+                    shapes = VEC_SHAPES2[tier]
+                for capk, unitsk, capo, unitso in shapes:
+                    uu = dict(u); uu['id'] = u['id'] + '.cap%d' % capk + ('o%d' % capo if extra.get('two') else '')
+                    uu['cdefs'] = u['cdefs'] + ['CAPK=%d' % capk, 'UNITSK=%d' % max(0, unitsk // L.sa), 'CAPK_O=%d' % capo, 'UNITSK_O=%d' % max(0, unitso // L.sa)]
                     if u['kind'] == 'proof':
                         uu['kind'] = 'bounded(capacity=%d, block=%d bytes; size, contents and offsets symbolic)' % (capk, max(0, unitsk // L.sa) * L.sa)
                     us.append(uu)
     return us
 
 
+# (capacity, block bytes) of the target and of the source operand: target smaller and target larger than the source
+VEC_SHAPES2 = {'quick': [(2, 32, 3, 64), (3, 64, 2, 32)], 'thorough': [(2, 32, 3, 64), (3, 64, 2, 32), (0, 0, 3, 64), (3, 64, 0, 0), (3, 64, 3, 64)]}
 VEC_SHAPES = {'quick': [(3, 64)], 'thorough': [(0, 0), (1, 32), (3, 64), (4, 96)]}
 
 
 def vec_catalogue(tier):
     if tier == 'quick':
-        return [('c4 v4', [0]), ('f4', [0]), ('c8a8 v2 p4a8', [3])]
+        return [('c4 v4', [0]), ('f4', [0]), ('c8a8 v2 p4a8', [3, 4]), ('f2a4 p1', [1])]
     return [('c4 v4', [0, 5]), ('f4', [0, 10]), ('c8a8 v2 p4a8', [3]), ('p4 p8a8', [0]), ('f3 f5a4 p2a2', [6]), ('c4 v4 c4 v4', [0]), ('c2 v3 c1 v5a4 p1', [0]), ('f4a16 c4 v4a8', [9])]
